@@ -144,6 +144,7 @@ impl HipEstimator {
     uninterp spec fn log(&self) -> Seq<(u8, u8)>;
     #[verifier::external_body]
     fn new(lg_config_k: u8) -> (r: Self)
+      requires lg_config_k < 32   // `1 << lg_config_k` is an i32 shift (unit hll_api)
       ensures r.log() == Seq::<(u8, u8)>::empty()
     { unimplemented!() }
     #[verifier::external_body]
@@ -259,6 +260,8 @@ spec fn slot_of(c: u32, lg: u8) -> int { (cslot(c) as int) % (pow2(lg as nat) as
 
 impl Array6 {
     spec fn k(&self) -> int { pow2(self.lg_config_k as nat) as int }
+    // refinement of the abstract register model of units hll_sketch / hll_union (`lg` is uninterpreted there)
+    spec fn lg(&self) -> u8 { self.lg_config_k }
     spec fn shape(&self) -> bool {
         4 <= self.lg_config_k <= 21 && self.bytes@.len() == (self.k() * 3) / 4 + 1
     }
